@@ -307,7 +307,7 @@ def run_regstep(case):
     return res
 
 
-PROFILES = {"geometry": Profile("geometry", geom_cases, run_geom, quick=30000, thorough=1000000, timeout=60),
+PROFILES = {"geometry": Profile("geometry", geom_cases, run_geom, quick=30000, thorough=1000000, timeout=60, fuzz=(1500, 60000)),
             "convex": Profile("convex", convex_cases, run_convex, quick=6000, thorough=150000, timeout=120),
             "regstep": Profile("regstep", regstep_cases, run_regstep, quick=400, thorough=8000, timeout=120)}
 KNOWN = {}
